@@ -320,6 +320,7 @@ def r3(ctx) -> None:
         ctx.ob("C15-R3", "create_result/fallback-on-failure", g is not None, cr, lib.stmt_of(c),
                "the history fallback must be taken exactly when the optimisation did not succeed")
         cps = lib.calls_to(repo, cr, "calculate_penalty", "calculate")
+        ctx.sites('C15-R3', "sites iterated at rules/c15.py:323 (cps)", len(cps), 1)
         for cp in cps:
             # on the failure path no evaluation may precede the fallback: every path entry->cp
             # which is not under `success` passes the fallback; structurally: the if holding the
